@@ -574,6 +574,42 @@ func c14Round(t *testing.T, rec *ev.Rec, round int) {
 				rec.Distinct("C14-esm", cl.name, when.tag, ok2)
 			}
 		}
+		// both controls at once: whatever the breaker refuses stays refused when the app's shutdown has been executed as
+		// well (inside and after the cool-off period, before and after the price snapshot)
+		small1 := sdk.NewInt(1)
+		for _, cl := range []cell{
+			{"breaker+shutdown/vault-withdraw", hOwner, &vaulttypes.MsgWithdrawRequest{From: hv.Owner, AppId: app, ExtendedPairVaultId: hp.ID, UserVaultId: hv.Id, Amount: small1}},
+			{"breaker+shutdown/vault-deposit", hOwner, &vaulttypes.MsgDepositRequest{From: hv.Owner, AppId: app, ExtendedPairVaultId: hp.ID, UserVaultId: hv.Id, Amount: small1}},
+			{"breaker+shutdown/vault-repay", hOwner, &vaulttypes.MsgRepayRequest{From: hv.Owner, AppId: app, ExtendedPairVaultId: hp.ID, UserVaultId: hv.Id, Amount: small1}},
+			{"breaker+shutdown/vault-close", hOwner, &vaulttypes.MsgCloseRequest{From: hv.Owner, AppId: app, ExtendedPairVaultId: hp.ID, UserVaultId: hv.Id}},
+			{"breaker+shutdown/vault-draw", hOwner, &vaulttypes.MsgDrawRequest{From: hv.Owner, AppId: app, ExtendedPairVaultId: hp.ID, UserVaultId: hv.Id, Amount: small1}},
+		} {
+			for _, when := range []struct {
+				tag      string
+				end      time.Time
+				snapshot bool
+			}{{"within-cool-off", now.Add(time.Hour), false}, {"within-cool-off-after-price-snapshot", now.Add(time.Hour), true}, {"after-cool-off-after-price-snapshot", now.Add(-time.Minute), true}} {
+				end, snap := when.end, when.snapshot
+				mut := func(ctx sdk.Context) {
+					exec(end)(ctx)
+					if snap {
+						st, _ := c.App.EsmKeeper.GetESMStatus(ctx, app)
+						_ = c.App.EsmKeeper.SnapshotOfPrices(ctx, st)
+					}
+					c.App.EsmKeeper.SetKillSwitchData(ctx, esmtypes.KillSwitchParams{AppId: app, BreakerEnable: true})
+				}
+				ok2, changed, _, errStr := e.handlerOnFork(cl.msg, mut)
+				rec.Eval(1)
+				rec.Count("breaker_and_shutdown_cells_checked", 1)
+				w := map[string]interface{}{"case": cl.name, "when": when.tag, "error": errStr, "vault": hv.Id}
+				if ok2 {
+					rec.Violate("C14/"+cl.name+"/accepted-with-breaker-on/"+when.tag, "a vault message the breaker refuses was accepted because the app's emergency shutdown has been executed as well", w)
+				} else if changed {
+					rec.Violate("C14/"+cl.name+"/refused-but-state-changed/"+when.tag, "the refused operation changed state", w)
+				}
+				rec.Distinct("C14-both", cl.name, when.tag, ok2)
+			}
+		}
 		// collateral withdrawal: possible until the cool-off period ends, refused afterwards
 		wd := &vaulttypes.MsgWithdrawRequest{From: hv.Owner, AppId: app, ExtendedPairVaultId: hp.ID, UserVaultId: hv.Id, Amount: sdk.NewInt(1)}
 		if ok, _, _, _ := e.handlerOnFork(wd, nil); ok {
